@@ -15,7 +15,7 @@ EXTRA = {'C07_m3': ['C11', 'C07'], 'C08_m1': ['C08', 'C10'], 'C07_m1': ['C07', '
 
 
 def one(mid):
-    checks = EXTRA.get(mid, [mid.split('_')[0]])
+    checks = EXTRA.get(mid, [mid.split('_')[0]])          # (C01_r2m1 -> C01)
     out = subprocess.run(['tools/muteval.sh', f'seeded/{mid}'] + checks, cwd=HERE, capture_output=True, text=True,
                          timeout=6000).stdout
     res = []
